@@ -1,6 +1,7 @@
 package main
 
 import (
+	"context"
 	"encoding/json"
 	"math"
 	"sync"
@@ -160,9 +161,14 @@ type meterOp struct {
 	V2    int    `json:"v2"`
 	Dt2   int    `json:"dt2"`
 }
+type meterOpt struct {
+	Kind string     `json:"kind"` // clock | init
+	Init absReading `json:"init"`
+}
 type meterWalk struct {
 	N   int `json:"n"`
 	Cfg struct {
+		Opts    []meterOpt `json:"opts"`
 		HasInit bool       `json:"hasInit"`
 		Init    absReading `json:"init"`
 	} `json:"cfg"`
@@ -181,6 +187,8 @@ type meterObs struct {
 	Pre     absReading `json:"pre"`
 	Post    absReading `json:"post"`
 	Ret     absReading `json:"ret"`
+	Opts    []meterOpt `json:"opts"` // New: the option sequence
+	Seed    absReading `json:"seed"` // New: the seed value of PullMeterReadings
 	Err     string     `json:"err"`
 	Panic   string     `json:"panic"`
 }
@@ -196,15 +204,27 @@ func runMeter(raw json.RawMessage, out *hx.Out) {
 	w := decode[meterWalk](raw)
 	clk := &tickClock{now: 10}
 	var m *meterpb.Model
-	o := meterObs{Model: "meter", Walk: w.N, Op: "New", HasInit: w.Cfg.HasInit, Now: 10, Pre: w.Cfg.Init, Err: "OK", Inner: "None"}
+	o := meterObs{Model: "meter", Walk: w.N, Op: "New", HasInit: w.Cfg.HasInit, Now: 10, Pre: w.Cfg.Init, Err: "OK", Inner: "None", Opts: w.Cfg.Opts}
 	o.Panic = hx.Catch(func() {
-		opts := []resource.Option{resource.WithClock(clk)}
-		if w.Cfg.HasInit {
-			opts = append(opts, resource.WithInitialValue(&traits.MeterReading{Usage: float32(w.Cfg.Init.Usage),
-				StartTime: concOptTime(w.Cfg.Init.Start), EndTime: concOptTime(w.Cfg.Init.End)}))
+		var opts []resource.Option
+		for _, co := range w.Cfg.Opts {
+			switch co.Kind {
+			case "clock":
+				opts = append(opts, resource.WithClock(clk))
+			case "init":
+				opts = append(opts, resource.WithInitialValue(&traits.MeterReading{Usage: float32(co.Init.Usage),
+					StartTime: concOptTime(co.Init.Start), EndTime: concOptTime(co.Init.End)}))
+			default:
+				hx.Fatal("meter: unknown option kind %q", co.Kind)
+			}
 		}
 		m = meterpb.NewModel(opts...)
 		o.Post = meterRead(m)
+		seed, _ := pullSeed(func(ctx context.Context) <-chan meterpb.PullMeterReadingChange { return m.PullMeterReadings(ctx) }, 1)
+		o.Seed = absReading{Usage: -7777}
+		if len(seed) == 1 {
+			o.Seed = absReadingOf(seed[0].Value)
+		}
 	})
 	o.Ret = o.Post
 	out.Write(o)
@@ -213,7 +233,7 @@ func runMeter(raw json.RawMessage, out *hx.Out) {
 	}
 	// one atomic call = one line
 	call := func(step int, op string, dt, v int) meterObs {
-		o := meterObs{Model: "meter", Walk: w.N, Step: step, Op: op, HasInit: w.Cfg.HasInit, V: v, Err: "OK", Inner: "None"}
+		o := meterObs{Model: "meter", Walk: w.N, Step: step, Op: op, HasInit: w.Cfg.HasInit, V: v, Err: "OK", Inner: "None", Opts: []meterOpt{}}
 		o.Now = clk.advance(dt)
 		o.Pre = meterRead(m)
 		o.Panic = hx.Catch(func() {
@@ -241,7 +261,7 @@ func runMeter(raw json.RawMessage, out *hx.Out) {
 			continue
 		}
 		// RecordReading held at its clock read, another client's call in between
-		o := meterObs{Model: "meter", Walk: w.N, Step: i + 1, Op: "Record", HasInit: w.Cfg.HasInit, V: op.V, Err: "OK", Inner: op.Inner}
+		o := meterObs{Model: "meter", Walk: w.N, Step: i + 1, Op: "Record", HasInit: w.Cfg.HasInit, V: op.V, Err: "OK", Inner: op.Inner, Opts: []meterOpt{}}
 		clk.advance(op.Dt)
 		o.Pre = meterRead(m)
 		var inner []meterObs
